@@ -6,6 +6,7 @@
 -/
 import SqlDt.Generated
 import SqlDt.Model.Basic
+import SqlDt.Model.F64     -- the model's soft-float (core Lean, imports Model.Basic only)
 set_option linter.unusedVariables false
 namespace SqlDt.Tr
 open SqlDt SqlDt.Gen
@@ -1149,6 +1150,287 @@ def IntervalDT.sub_time (self : Int) (time : Int) : Chk Int :=
 def IntervalDT.sub_time_safe (self : Int) (time : Int) : Prop :=
   fitsI64 (self - time) ∧ Tr.IntervalDT.try_from_usecs_safe (self - time)
 
+/-- `interval.rs::IntervalYM::mul_f64` (interval.rs:165), body sha1 4c83c916e4c3 -/
+def IntervalYM.mul_f64 (self : Int) (number : F64) : Chk Int :=
+  -- interval.rs:166: let months = self.months() as f64;
+  let months : F64 := F64.ofInt self
+  -- interval.rs:167: let result = months * number;
+  let result : F64 := F64.mul months number
+  if F64.isInfinite result = true then
+    Except.error Err.NumericOverflow
+  else if F64.isNan result = true then
+    Except.error Err.InvalidNumber
+  else
+    Tr.IntervalYM.try_from_months (F64.toI32 result)
+
+/-- No arithmetic node of `interval.rs::IntervalYM::mul_f64` leaves its Rust integer type, no division by zero, no index out of range
+    (path-sensitive; calls contribute the callee's predicate). -/
+def IntervalYM.mul_f64_safe (self : Int) (number : F64) : Prop :=
+  let months : F64 := F64.ofInt self
+  let result : F64 := F64.mul months number
+  (¬ F64.isInfinite result = true →
+    ¬ F64.isNan result = true → Tr.IntervalYM.try_from_months_safe (F64.toI32 result))
+
+/-- `interval.rs::IntervalYM::div_f64` (interval.rs:180), body sha1 b901a3914a1c -/
+def IntervalYM.div_f64 (self : Int) (number : F64) : Chk Int :=
+  -- interval.rs:181: if number == 0.0 {
+  if F64.isZero number = true then
+    -- interval.rs:182: return Err(Error::DivideByZero);
+    Except.error Err.DivideByZero
+  else
+    -- interval.rs:184: let months = self.months() as f64;
+    let months : F64 := F64.ofInt self
+    -- interval.rs:185: let result = months / number;
+    let result : F64 := F64.div months number
+    if F64.isInfinite result = true then
+      Except.error Err.NumericOverflow
+    else if F64.isNan result = true then
+      Except.error Err.InvalidNumber
+    else
+      Tr.IntervalYM.try_from_months (F64.toI32 result)
+
+/-- No arithmetic node of `interval.rs::IntervalYM::div_f64` leaves its Rust integer type, no division by zero, no index out of range
+    (path-sensitive; calls contribute the callee's predicate). -/
+def IntervalYM.div_f64_safe (self : Int) (number : F64) : Prop :=
+  (¬ F64.isZero number = true →
+    let months : F64 := F64.ofInt self
+    let result : F64 := F64.div months number
+    (¬ F64.isInfinite result = true →
+      ¬ F64.isNan result = true → Tr.IntervalYM.try_from_months_safe (F64.toI32 result)))
+
+/-- `interval.rs::IntervalDT::mul_f64` (interval.rs:469), body sha1 40886ff102a5 -/
+def IntervalDT.mul_f64 (self : Int) (number : F64) : Chk Int :=
+  -- interval.rs:470: let usecs = self.usecs() as f64;
+  let usecs : F64 := F64.ofInt self
+  -- interval.rs:471: let result = usecs * number;
+  let result : F64 := F64.mul usecs number
+  if F64.isInfinite result = true then
+    Except.error Err.NumericOverflow
+  else if F64.isNan result = true then
+    Except.error Err.InvalidNumber
+  else
+    Tr.IntervalDT.try_from_usecs (F64.toI64 result)
+
+/-- No arithmetic node of `interval.rs::IntervalDT::mul_f64` leaves its Rust integer type, no division by zero, no index out of range
+    (path-sensitive; calls contribute the callee's predicate). -/
+def IntervalDT.mul_f64_safe (self : Int) (number : F64) : Prop :=
+  let usecs : F64 := F64.ofInt self
+  let result : F64 := F64.mul usecs number
+  (¬ F64.isInfinite result = true →
+    ¬ F64.isNan result = true → Tr.IntervalDT.try_from_usecs_safe (F64.toI64 result))
+
+/-- `interval.rs::IntervalDT::div_f64` (interval.rs:484), body sha1 1bf6c52fe61c -/
+def IntervalDT.div_f64 (self : Int) (number : F64) : Chk Int :=
+  -- interval.rs:485: if number == 0.0 {
+  if F64.isZero number = true then
+    -- interval.rs:486: return Err(Error::DivideByZero);
+    Except.error Err.DivideByZero
+  else
+    -- interval.rs:488: let usecs = self.usecs() as f64;
+    let usecs : F64 := F64.ofInt self
+    -- interval.rs:489: let result = usecs / number;
+    let result : F64 := F64.div usecs number
+    if F64.isInfinite result = true then
+      Except.error Err.NumericOverflow
+    else if F64.isNan result = true then
+      Except.error Err.InvalidNumber
+    else
+      Tr.IntervalDT.try_from_usecs (F64.toI64 result)
+
+/-- No arithmetic node of `interval.rs::IntervalDT::div_f64` leaves its Rust integer type, no division by zero, no index out of range
+    (path-sensitive; calls contribute the callee's predicate). -/
+def IntervalDT.div_f64_safe (self : Int) (number : F64) : Prop :=
+  (¬ F64.isZero number = true →
+    let usecs : F64 := F64.ofInt self
+    let result : F64 := F64.div usecs number
+    (¬ F64.isInfinite result = true →
+      ¬ F64.isNan result = true → Tr.IntervalDT.try_from_usecs_safe (F64.toI64 result)))
+
+/-- `interval.rs::DateTime for IntervalDT::second` (interval.rs:600), body sha1 146d3cbcbe07 -/
+def IntervalDT.second (self : Int) : Option F64 :=
+  -- interval.rs:601: let remain_time = self.usecs() % USECONDS_PER_MINUTE;
+  let remain_time : Int := rrem self USECONDS_PER_MINUTE
+  some (F64.div (F64.ofInt remain_time) (F64.ofInt USECONDS_PER_SECOND))
+
+/-- No arithmetic node of `interval.rs::DateTime for IntervalDT::second` leaves its Rust integer type, no division by zero, no index out of range
+    (path-sensitive; calls contribute the callee's predicate). -/
+def IntervalDT.second_safe (self : Int) : Prop :=
+  True
+
+/-- `time.rs::Time::mul_f64` (time.rs:187), body sha1 a2a71080114a -/
+def Time.mul_f64 (self : Int) (number : F64) : Chk Int :=
+  Tr.IntervalDT.mul_f64 self number
+
+/-- No arithmetic node of `time.rs::Time::mul_f64` leaves its Rust integer type, no division by zero, no index out of range
+    (path-sensitive; calls contribute the callee's predicate). -/
+def Time.mul_f64_safe (self : Int) (number : F64) : Prop :=
+  Tr.IntervalDT.mul_f64_safe self number
+
+/-- `time.rs::Time::div_f64` (time.rs:193), body sha1 cbc22b280a4b -/
+def Time.div_f64 (self : Int) (number : F64) : Chk Int :=
+  Tr.IntervalDT.div_f64 self number
+
+/-- No arithmetic node of `time.rs::Time::div_f64` leaves its Rust integer type, no division by zero, no index out of range
+    (path-sensitive; calls contribute the callee's predicate). -/
+def Time.div_f64_safe (self : Int) (number : F64) : Prop :=
+  Tr.IntervalDT.div_f64_safe self number
+
+/-- `time.rs::DateTime for Time::second` (time.rs:294), body sha1 146d3cbcbe07 -/
+def Time.second (self : Int) : Option F64 :=
+  -- time.rs:295: let remain_time = self.usecs() % USECONDS_PER_MINUTE;
+  let remain_time : Int := rrem self USECONDS_PER_MINUTE
+  some (F64.div (F64.ofInt remain_time) (F64.ofInt USECONDS_PER_SECOND))
+
+/-- No arithmetic node of `time.rs::DateTime for Time::second` leaves its Rust integer type, no division by zero, no index out of range
+    (path-sensitive; calls contribute the callee's predicate). -/
+def Time.second_safe (self : Int) : Prop :=
+  True
+
+/-- `timestamp.rs::Timestamp::add_days` (timestamp.rs:144), body sha1 0493de9d165b -/
+def Timestamp.add_days (self : Int) (days : F64) : Chk Int :=
+  -- timestamp.rs:145: let microseconds = (days * USECONDS_PER_DAY as f64).round();
+  let microseconds : F64 := F64.roundHalfAway (F64.mul days (F64.ofInt USECONDS_PER_DAY))
+  if F64.isInfinite microseconds = true then
+    Except.error Err.NumericOverflow
+  else if F64.isNan microseconds = true then
+    Except.error Err.InvalidNumber
+  else
+    -- timestamp.rs:151: let result = self.usecs().checked_add(microseconds as i64);
+    let result : Option Int := checkedI64 (self + F64.toI64 microseconds)
+    match result with
+    | some d => Tr.Timestamp.try_from_usecs d
+    | none => Except.error Err.DateOutOfRange
+
+/-- No arithmetic node of `timestamp.rs::Timestamp::add_days` leaves its Rust integer type, no division by zero, no index out of range
+    (path-sensitive; calls contribute the callee's predicate). -/
+def Timestamp.add_days_safe (self : Int) (days : F64) : Prop :=
+  let microseconds : F64 := F64.roundHalfAway (F64.mul days (F64.ofInt USECONDS_PER_DAY))
+  (¬ F64.isInfinite microseconds = true →
+    (¬ F64.isNan microseconds = true →
+      let result : Option Int := checkedI64 (self + F64.toI64 microseconds)
+      match result with
+      | some d => Tr.Timestamp.try_from_usecs_safe d
+      | none => True))
+
+/-- `timestamp.rs::Timestamp::sub_days` (timestamp.rs:193), body sha1 1ac4837eab3c -/
+def Timestamp.sub_days (self : Int) (days : F64) : Chk Int :=
+  Tr.Timestamp.add_days self (F64.neg days)
+
+/-- No arithmetic node of `timestamp.rs::Timestamp::sub_days` leaves its Rust integer type, no division by zero, no index out of range
+    (path-sensitive; calls contribute the callee's predicate). -/
+def Timestamp.sub_days_safe (self : Int) (days : F64) : Prop :=
+  Tr.Timestamp.add_days_safe self (F64.neg days)
+
+/-- `timestamp.rs::DateTime for Timestamp::second` (timestamp.rs:511), body sha1 cc7ecfc1a890 -/
+def Timestamp.second (self : Int) : Option F64 :=
+  Tr.Time.second (Tr.Timestamp.time self)
+
+/-- No arithmetic node of `timestamp.rs::DateTime for Timestamp::second` leaves its Rust integer type, no division by zero, no index out of range
+    (path-sensitive; calls contribute the callee's predicate). -/
+def Timestamp.second_safe (self : Int) : Prop :=
+  Tr.Timestamp.time_safe self ∧ Tr.Time.second_safe (Tr.Timestamp.time self)
+
+/-- `oracle.rs::OracleDate::add_days` (oracle.rs:121), body sha1 8ef2f2dd1ce9 -/
+def OracleDate.add_days (self : Int) (days : F64) : Chk Int :=
+  match Tr.Timestamp.add_days self days with
+  | Except.error err => Except.error err
+  | Except.ok r1 =>
+      -- oracle.rs:122: let timestamp = self.0.add_days(days)?;
+      let timestamp : Int := r1
+      -- oracle.rs:125: let usecs = timestamp.usecs();
+      let usecs : Int := timestamp
+      -- oracle.rs:126: let mut secs = usecs / USECONDS_PER_SECOND;
+      let secs : Int := rdiv usecs USECONDS_PER_SECOND
+      -- oracle.rs:127: if (usecs % USECONDS_PER_SECOND).abs() * 2 >= USECONDS_PER_SECOND {
+      let secs : Int :=
+        if absI64 (rrem usecs USECONDS_PER_SECOND) * 2 ≥ USECONDS_PER_SECOND then
+          -- oracle.rs:128: secs += usecs.signum();
+          let secs : Int := secs + signum usecs
+          secs
+        else
+          secs
+      match Tr.Timestamp.try_from_usecs (secs * USECONDS_PER_SECOND) with
+      | Except.error err => Except.error err
+      | Except.ok r2 => Except.ok r2
+
+/-- No arithmetic node of `oracle.rs::OracleDate::add_days` leaves its Rust integer type, no division by zero, no index out of range
+    (path-sensitive; calls contribute the callee's predicate). -/
+def OracleDate.add_days_safe (self : Int) (days : F64) : Prop :=
+  Tr.Timestamp.add_days_safe self days ∧
+  (match Tr.Timestamp.add_days self days with
+   | Except.error err => True
+   | Except.ok r1 =>
+       let timestamp : Int := r1
+       let usecs : Int := timestamp
+       let secs : Int := rdiv usecs USECONDS_PER_SECOND
+       fitsI64 (absI (rrem usecs USECONDS_PER_SECOND)) ∧
+       fitsI64 (absI64 (rrem usecs USECONDS_PER_SECOND) * 2) ∧
+       (absI64 (rrem usecs USECONDS_PER_SECOND) * 2 ≥ USECONDS_PER_SECOND → fitsI64 (secs + signum usecs)) ∧
+       let secs : Int :=
+         if absI64 (rrem usecs USECONDS_PER_SECOND) * 2 ≥ USECONDS_PER_SECOND then
+           -- oracle.rs:128: secs += usecs.signum();
+           let secs : Int := secs + signum usecs
+           secs
+         else
+           secs
+       fitsI64 (secs * USECONDS_PER_SECOND) ∧ Tr.Timestamp.try_from_usecs_safe (secs * USECONDS_PER_SECOND))
+
+/-- `oracle.rs::OracleDate::sub_days` (oracle.rs:165), body sha1 1ac4837eab3c -/
+def OracleDate.sub_days (self : Int) (days : F64) : Chk Int :=
+  Tr.OracleDate.add_days self (F64.neg days)
+
+/-- No arithmetic node of `oracle.rs::OracleDate::sub_days` leaves its Rust integer type, no division by zero, no index out of range
+    (path-sensitive; calls contribute the callee's predicate). -/
+def OracleDate.sub_days_safe (self : Int) (days : F64) : Prop :=
+  Tr.OracleDate.add_days_safe self (F64.neg days)
+
+/-- `oracle.rs::OracleDate::sub_date` (oracle.rs:135), body sha1 0cda7f6b9fd2 -/
+def OracleDate.sub_date (self : Int) (date : Int) : F64 :=
+  F64.div (F64.ofInt (self - date)) (F64.ofInt USECONDS_PER_DAY)
+
+/-- No arithmetic node of `oracle.rs::OracleDate::sub_date` leaves its Rust integer type, no division by zero, no index out of range
+    (path-sensitive; calls contribute the callee's predicate). -/
+def OracleDate.sub_date_safe (self : Int) (date : Int) : Prop :=
+  fitsI64 (self - date)
+
+/-- `oracle.rs::From<Timestamp> for OracleDate::from` (oracle.rs:371), body sha1 4c99cc211bfc -/
+def OracleDate.from_timestamp (timestamp : Int) : Int :=
+  -- oracle.rs:372: let usecs = timestamp.usecs();
+  let usecs : Int := timestamp
+  -- oracle.rs:373: let temp = usecs / USECONDS_PER_SECOND * USECONDS_PER_SECOND;
+  let temp : Int := rdiv usecs USECONDS_PER_SECOND * USECONDS_PER_SECOND
+  -- oracle.rs:374: let result = if usecs < 0 && temp > usecs {
+  let result : Int := if usecs < 0 ∧ temp > usecs then temp - USECONDS_PER_SECOND else temp
+  result
+
+/-- No arithmetic node of `oracle.rs::From<Timestamp> for OracleDate::from` leaves its Rust integer type, no division by zero, no index out of range
+    (path-sensitive; calls contribute the callee's predicate). -/
+def OracleDate.from_timestamp_safe (timestamp : Int) : Prop :=
+  let usecs : Int := timestamp
+  fitsI64 (rdiv usecs USECONDS_PER_SECOND * USECONDS_PER_SECOND) ∧
+  let temp : Int := rdiv usecs USECONDS_PER_SECOND * USECONDS_PER_SECOND
+  usecs < 0 ∧ temp > usecs → fitsI64 (temp - USECONDS_PER_SECOND)
+
+/-- `oracle.rs::Timestamp::oracle_add_days` (oracle.rs:321), body sha1 5a4365df5fd3 -/
+def Timestamp.oracle_add_days (self : Int) (days : F64) : Chk Int :=
+  Tr.OracleDate.add_days (Tr.OracleDate.from_timestamp self) days
+
+/-- No arithmetic node of `oracle.rs::Timestamp::oracle_add_days` leaves its Rust integer type, no division by zero, no index out of range
+    (path-sensitive; calls contribute the callee's predicate). -/
+def Timestamp.oracle_add_days_safe (self : Int) (days : F64) : Prop :=
+  Tr.OracleDate.from_timestamp_safe self ∧
+  Tr.OracleDate.add_days_safe (Tr.OracleDate.from_timestamp self) days
+
+/-- `oracle.rs::Timestamp::oracle_sub_days` (oracle.rs:327), body sha1 4e8bad1bbcb1 -/
+def Timestamp.oracle_sub_days (self : Int) (days : F64) : Chk Int :=
+  Tr.OracleDate.add_days (Tr.OracleDate.from_timestamp self) (F64.neg days)
+
+/-- No arithmetic node of `oracle.rs::Timestamp::oracle_sub_days` leaves its Rust integer type, no division by zero, no index out of range
+    (path-sensitive; calls contribute the callee's predicate). -/
+def Timestamp.oracle_sub_days_safe (self : Int) (days : F64) : Prop :=
+  Tr.OracleDate.from_timestamp_safe self ∧
+  Tr.OracleDate.add_days_safe (Tr.OracleDate.from_timestamp self) (F64.neg days)
+
 /-- `date.rs::Date::is_valid` (date.rs:139), body sha1 4487b69d9774 -/
 def Date.is_valid (year : Int) (month : Int) (day : Int) : Bool :=
   -- date.rs:140: if year < DATE_MIN_YEAR || year > DATE_MAX_YEAR {
@@ -1375,24 +1657,6 @@ def OracleDate.try_from_usecs (usecs : Int) : Chk Int :=
     (path-sensitive; calls contribute the callee's predicate). -/
 def OracleDate.try_from_usecs_safe (usecs : Int) : Prop :=
   Tr.OracleDate.is_valid_date_safe usecs
-
-/-- `oracle.rs::From<Timestamp> for OracleDate::from` (oracle.rs:371), body sha1 4c99cc211bfc -/
-def OracleDate.from_timestamp (timestamp : Int) : Int :=
-  -- oracle.rs:372: let usecs = timestamp.usecs();
-  let usecs : Int := timestamp
-  -- oracle.rs:373: let temp = usecs / USECONDS_PER_SECOND * USECONDS_PER_SECOND;
-  let temp : Int := rdiv usecs USECONDS_PER_SECOND * USECONDS_PER_SECOND
-  -- oracle.rs:374: let result = if usecs < 0 && temp > usecs {
-  let result : Int := if usecs < 0 ∧ temp > usecs then temp - USECONDS_PER_SECOND else temp
-  result
-
-/-- No arithmetic node of `oracle.rs::From<Timestamp> for OracleDate::from` leaves its Rust integer type, no division by zero, no index out of range
-    (path-sensitive; calls contribute the callee's predicate). -/
-def OracleDate.from_timestamp_safe (timestamp : Int) : Prop :=
-  let usecs : Int := timestamp
-  fitsI64 (rdiv usecs USECONDS_PER_SECOND * USECONDS_PER_SECOND) ∧
-  let temp : Int := rdiv usecs USECONDS_PER_SECOND * USECONDS_PER_SECOND
-  usecs < 0 ∧ temp > usecs → fitsI64 (temp - USECONDS_PER_SECOND)
 
 /-- `oracle.rs::OracleDate::add_interval_dt` (oracle.rs:103), body sha1 d1969c965f82 -/
 def OracleDate.add_interval_dt (self : Int) (interval : Int) : Chk Int :=
